@@ -47,22 +47,36 @@ def audit():
             ua = groups[ga][1].get(uid)
             ens_a = set(norm(c.text) for c in (ua.ensures if ua else []))
             req_a = set(norm(c.text) for c in (ua.requires if ua else []))
-            ok = False
-            why = []
+            owners = []
             for gp in proved[uid]:
                 up = groups[gp][1].get(uid)
-                ens_p = set(norm(c.text) for c in (up.ensures if up else []))
-                req_p = set(norm(c.text) for c in (up.requires if up else []))
-                miss_e = [e for e in ens_a if e not in ens_p and e != "true"]
-                miss_r = [r for r in req_p if r not in req_a]
-                if not miss_e and not miss_r:
-                    ok = True
-                    break
-                why.append((gp, miss_e, miss_r))
-            if not ok:
-                for gp, me, mr in why:
-                    mism.append({"unit": uid, "assumed_in": ga, "proved_in": gp, "ensures_missing": me, "requires_unchecked": mr,
-                                 "only_frame": not [e for e in ens_a if e != "true"]})
+                owners.append((gp, set(norm(c.text) for c in (up.ensures if up else [])), set(norm(c.text) for c in (up.requires if up else []))))
+            # clause by clause (a unit may be proved in parts by several groups, each under its own preconditions): every
+            # assumed ensures must be proved by SOME owner whose requires are all among the assumer's requires
+            unproved = []
+            unchained = {}
+            for e in sorted(ens_a):
+                if e == "true":
+                    continue
+                holders = [(gp, rp) for gp, ep, rp in owners if e in ep]
+                if not holders:
+                    unproved.append(e)
+                    continue
+                if not any(all(r in req_a for r in rp) for gp, rp in holders):
+                    gp, rp = holders[0]
+                    unchained.setdefault(gp, set()).update(r for r in rp if r not in req_a)
+            if unproved:
+                mism.append({"unit": uid, "assumed_in": ga, "proved_in": ",".join(g for g, _e, _r in owners), "ensures_missing": unproved, "requires_unchecked": [],
+                             "only_frame": False})
+            for gp, rs in sorted(unchained.items()):
+                mism.append({"unit": uid, "assumed_in": ga, "proved_in": gp, "ensures_missing": [], "requires_unchecked": sorted(rs),
+                             "only_frame": not [e for e in ens_a if e != "true"]})
+            if not [e for e in ens_a if e != "true"]:
+                # frame-only entry (no ensures assumed): still report the owner's unchecked requires, as before
+                for gp, _ep, rp in owners:
+                    miss_r = [r for r in rp if r not in req_a]
+                    if miss_r and not any(m["unit"] == uid and m["assumed_in"] == ga and m["proved_in"] == gp for m in mism):
+                        mism.append({"unit": uid, "assumed_in": ga, "proved_in": gp, "ensures_missing": [], "requires_unchecked": miss_r, "only_frame": True})
     return mism, trusted, len(assumed)
 
 
